@@ -16,52 +16,96 @@ func runC18O1(c *Ctx) {
 	if !c.need("C18.O1", sd, "tcp.Server.Shutdown") {
 		return
 	}
-	lisF := c18ElemFields(c, "proxy/tcp", "Server", "net.Listener")
-	connF := c18ElemFields(c, "proxy/tcp", "Server", "net.Conn")
+	lisF := c18ElemFieldVars(c, "proxy/tcp", "net.Listener")
+	connF := c18ElemFieldVars(c, "proxy/tcp", "net.Conn")
 	if len(lisF) == 0 || len(connF) == 0 {
-		c.undecided("C18.O1", "proxy/tcp.Server|tracked listeners and connections", "tcp.Server has no field holding net.Listener values or none holding net.Conn values")
+		c.undecided("C18.O1", "proxy/tcp.Server|tracked listeners and connections", "package proxy/tcp has no struct field holding a collection of net.Listener values or none holding net.Conn values")
 		return
 	}
+	var ctx *ssa.Parameter
+	for _, p := range sd.Params {
+		if c18IsCtx(p.Type()) {
+			ctx = p
+		}
+	}
 	// closesElems(fields): the instruction closes an element of one of the collections
-	closesElems := func(fields map[string]bool) func(ssa.Instruction) bool {
+	closesElems := func(fields map[*types.Var]bool) func(ssa.Instruction) bool {
 		return func(i ssa.Instruction) bool {
 			if _, isGo := i.(*ssa.Go); isGo {
 				return false
 			}
 			recv, ok := c18IsClose(i)
-			return ok && c18FromFieldElems(recv, "tcp.Server", fields)
+			return ok && c18FromFields(recv, fields)
 		}
 	}
-	// landmarks in Shutdown itself: a call of a helper that may close the elements, or - when the loop is written in
-	// Shutdown - the loads of the collection the closed elements come from (they precede the loop, which may run zero times)
-	landmarks := func(fields map[string]bool) []ssa.Instruction {
+	closesLis, closesConn := closesElems(lisF), closesElems(connF)
+	// The landmarks of one frame (a function reached from Shutdown, callback parameters resolved to what was passed on
+	// this path): the instructions that close the elements - a close written there, with the load of the collection
+	// (or the call of the helper that returns it) the closed elements come from, which precedes a loop that may run zero
+	// times; a call of a function that may close them; for a deferred call, the points where the deferred calls run.
+	type marks struct{ lis, conns []ssa.Instruction }
+	memo := map[*c18Frame]*marks{}
+	landmarks := func(fr *c18Frame, fields map[*types.Var]bool, pred func(ssa.Instruction) bool) []ssa.Instruction {
 		var out []ssa.Instruction
-		pred := closesElems(fields)
-		inline := false
-		eachInstr(sd, func(i ssa.Instruction) {
-			if pred(i) {
-				inline = true
+		add := func(i ssa.Instruction) {
+			for _, x := range out {
+				if x == i {
+					return
+				}
 			}
-		})
-		eachInstr(sd, func(i ssa.Instruction) {
-			if _, isGo := i.(*ssa.Go); isGo {
+			out = append(out, i)
+		}
+		eachInstr(fr.fn, func(i ssa.Instruction) {
+			switch x := i.(type) {
+			case *ssa.Go:
 				return
-			}
-			if cc := callCommon(i); cc != nil {
-				if c18LiftMay(pred)(i) {
-					out = append(out, i)
+			case *ssa.Defer:
+				if fr.may(x, pred) {
+					eachInstr(fr.fn, func(r ssa.Instruction) {
+						if _, isRun := r.(*ssa.RunDefers); isRun && dominatesInstr(x, r) {
+							add(r)
+						}
+					})
 				}
 				return
 			}
-			if v, ok := i.(ssa.Value); ok && inline && c18FieldLoad(v, "tcp.Server", fields) {
-				if _, isLoad := i.(*ssa.UnOp); isLoad {
-					out = append(out, i)
-				}
+			if !fr.may(i, pred) {
+				return
 			}
+			add(i)
+			recv, direct := c18IsClose(i)
+			if !direct || !pred(i) {
+				return
+			}
+			eachInstr(fr.fn, func(s ssa.Instruction) {
+				v, isVal := s.(ssa.Value)
+				if !isVal {
+					return
+				}
+				src := false
+				switch y := s.(type) {
+				case *ssa.UnOp:
+					src = y.Op == token.MUL && fields[c18FieldVarOf(y)]
+				case *ssa.Field:
+					src = fields[c18FieldVarOf(y)]
+				case *ssa.Call:
+					src = len(c18Targets(&y.Call)) > 0 && c18FromFields(y, fields)
+				}
+				if src && derives(recv, func(z ssa.Value) bool { return z == v }) {
+					add(s)
+				}
+			})
 		})
 		return out
 	}
-	lis, conns := landmarks(lisF), landmarks(connF)
+	marksOf := func(fr *c18Frame) *marks {
+		if m := memo[fr]; m != nil {
+			return m
+		}
+		m := &marks{landmarks(fr, lisF, closesLis), landmarks(fr, connF, closesConn)}
+		memo[fr] = m
+		return m
+	}
 	oneOf := func(set []ssa.Instruction) func(ssa.Instruction) bool {
 		return func(i ssa.Instruction) bool {
 			for _, x := range set {
@@ -72,74 +116,143 @@ func runC18O1(c *Ctx) {
 			return false
 		}
 	}
-	// the wait: a receive from (or select on) the context's Done channel, in Shutdown or in a helper it calls
-	var ctx *ssa.Parameter
-	for _, p := range sd.Params {
-		if c18IsCtx(p.Type()) {
-			ctx = p
+	// the waits: receives from (selects on) a deadline channel in Shutdown or in what it runs synchronously; below
+	// Shutdown itself the channel must be the Done channel of Shutdown's context, or the context must have been
+	// handed down on the way
+	onCtx := func(w c18Wait) bool {
+		for _, ch := range w.Chans {
+			if ctx != nil && derives(ch, func(v ssa.Value) bool {
+				call, ok := v.(*ssa.Call)
+				return ok && call.Call.IsInvoke() && call.Call.Method.Name() == "Done" && c18Derives(call.Call.Value, func(z ssa.Value) bool { return z == ctx })
+			}) {
+				return true
+			}
 		}
+		return false
 	}
-	isCtxWait := func(i ssa.Instruction) bool {
-		w, ok := c18WaitOf(i)
-		return ok && w.Deadline
+	handsCtx := func(fr *c18Frame) bool {
+		for f := fr; f != nil && f.site != nil; f = f.parent {
+			cc := f.site.Common()
+			vals := append([]ssa.Value{}, cc.Args...)
+			if mc, ok := cc.Value.(*ssa.MakeClosure); ok {
+				vals = append(vals, mc.Bindings...)
+			}
+			for _, a := range cc.Args {
+				if mc, ok := a.(*ssa.MakeClosure); ok {
+					vals = append(vals, mc.Bindings...) // a closure / method value that carries the context
+				}
+			}
+			for _, a := range vals {
+				if ctx != nil && c18Derives(a, func(z ssa.Value) bool { return z == ctx }) {
+					return true
+				}
+			}
+		}
+		return false
 	}
 	type waitSite struct {
 		i      ssa.Instruction
+		fr     *c18Frame
 		single bool
 	}
 	var waits []waitSite
-	eachInstr(sd, func(i ssa.Instruction) {
-		if w, ok := c18WaitOf(i); ok && w.Deadline {
-			waits = append(waits, waitSite{i, w.Single})
-			return
-		}
-		if call, ok := i.(*ssa.Call); ok {
-			if c18LiftMay(isCtxWait)(i) {
-				passesCtx := false
-				for _, a := range call.Call.Args {
-					if ctx != nil && derives(a, func(v ssa.Value) bool { return v == ctx }) {
-						passesCtx = true
-					}
-				}
-				if passesCtx {
-					waits = append(waits, waitSite{i, true})
-				}
+	nLis, nConn := 0, 0
+	var lisPos, connPos token.Pos
+	c18EachFrame(sd, c18MaxFrameDepth, true, func(fr *c18Frame) bool {
+		m := marksOf(fr)
+		if len(m.lis) > 0 {
+			nLis += len(m.lis)
+			if lisPos == token.NoPos {
+				lisPos = m.lis[0].Pos()
 			}
 		}
+		if len(m.conns) > 0 {
+			nConn += len(m.conns)
+			connPos = m.conns[len(m.conns)-1].Pos()
+		}
+		eachInstr(fr.fn, func(i ssa.Instruction) {
+			w, ok := c18WaitOf(i)
+			if !ok || !w.Deadline {
+				return
+			}
+			if fr.parent == nil || onCtx(w) || handsCtx(fr) {
+				waits = append(waits, waitSite{i, fr, w.Single})
+			}
+		})
+		return true
 	})
-	if len(lis) == 0 || len(conns) == 0 || len(waits) == 0 {
+	if nLis == 0 || nConn == 0 || len(waits) == 0 {
 		c.undecided("C18.O1", "(*proxy/tcp.Server).Shutdown|close listeners / wait on ctx / close connections", "one of the three steps was not found")
 		return
 	}
-	okLis, okBefore, okAfter := true, true, true
-	for _, w := range waits {
-		if c18EntryReaches(w.i, oneOf(lis)) {
-			okLis = false
-		}
-		for _, k := range conns {
-			if pathAvoiding(k, w.i, nil) {
-				okBefore = false
+	// The three facts are path facts of the function that holds the wait; where that function does not decide one (the
+	// wait sits in a helper, in a callback, behind an interface), its call site in the frame above is asked, and so on
+	// up to Shutdown.
+	precededByLis := func(w waitSite) bool {
+		t := w.i
+		for fr := w.fr; fr != nil; fr = fr.parent {
+			if !c18EntryReaches(t, oneOf(marksOf(fr).lis)) {
+				return true
 			}
+			t = fr.site
 		}
-		if w.single {
-			if _, open := exitReachableAvoiding(w.i, oneOf(conns)); open {
-				okAfter = false
-			}
-		} else {
-			reach := false
-			for _, k := range conns {
-				if pathAvoiding(w.i, k, nil) {
-					reach = true
+		return false
+	}
+	connClosedBefore := func(w waitSite) bool {
+		t := w.i
+		for fr := w.fr; fr != nil; fr = fr.parent {
+			for _, k := range marksOf(fr).conns {
+				if k != t && pathAvoiding(k, t, nil) {
+					return true
 				}
 			}
-			if !reach {
-				okAfter = false
+			t = fr.site
+		}
+		return false
+	}
+	connClosedAfter := func(w waitSite) bool {
+		t := w.i
+		for fr := w.fr; fr != nil; fr = fr.parent {
+			conns := marksOf(fr).conns
+			if w.single {
+				rest := conns[:0:0]
+				for _, k := range conns {
+					if k != t {
+						rest = append(rest, k)
+					}
+				}
+				if _, open := exitReachableAvoiding(t, oneOf(rest)); !open {
+					return true
+				}
+			} else {
+				for _, k := range conns {
+					if k != t && pathAvoiding(t, k, nil) {
+						return true
+					}
+				}
 			}
+			if _, isCall := fr.site.(*ssa.Call); fr.site != nil && !isCall {
+				return false
+			}
+			t = fr.site
+		}
+		return false
+	}
+	okLis, okBefore, okAfter := true, true, true
+	for _, w := range waits {
+		if !precededByLis(w) {
+			okLis = false
+		}
+		if connClosedBefore(w) {
+			okBefore = false
+		}
+		if !connClosedAfter(w) {
+			okAfter = false
 		}
 	}
-	c.check("C18.O1", "(*proxy/tcp.Server).Shutdown|listeners closed before the wait", lis[0].Pos(), okLis,
+	c.check("C18.O1", "(*proxy/tcp.Server).Shutdown|listeners closed before the wait", lisPos, okLis,
 		"the listeners must be closed before waiting on ctx.Done(): otherwise new connections are accepted during the whole shutdown wait")
-	c.check("C18.O1", "(*proxy/tcp.Server).Shutdown|connections closed after the wait", conns[len(conns)-1].Pos(), okBefore && okAfter,
+	c.check("C18.O1", "(*proxy/tcp.Server).Shutdown|connections closed after the wait", connPos, okBefore && okAfter,
 		"open connections must be closed only after the wait, and then on every path: closing them first cuts tunnels that would have finished within the configured wait; not closing them leaves never-ending tunnels open")
 }
 
@@ -282,7 +395,13 @@ func runC18E1(c *Ctx) {
 			}
 			nListen++
 			listenPos = i.Pos()
-			handlers = append(handlers, funcsOf(cc.Args[0])...)
+			handlers = append(handlers, c18FuncsOf(cc.Args[0])...)
+			// the handler as a small interface instead of a function: the methods of the concrete type handed over
+			if it, isIface := cc.Args[0].Type().Underlying().(*types.Interface); isIface {
+				for k := 0; k < it.NumMethods(); k++ {
+					handlers = append(handlers, (&c18Frame{fn: f}).concreteMethods(cc.Args[0], it.Method(k))...)
+				}
+			}
 		})
 	}
 	if nListen == 0 || len(handlers) == 0 {
@@ -309,7 +428,7 @@ func runC18E1(c *Ctx) {
 		default:
 			return false
 		}
-		return derives(cc.Args[0], func(v ssa.Value) bool {
+		return c18Derives(cc.Args[0], func(v ssa.Value) bool {
 			_, ok := fieldOf(v, "config.Proxy", "DeregisterGracePeriod")
 			return ok
 		})
@@ -351,7 +470,7 @@ func runC18E1(c *Ctx) {
 	}
 	graceBranch := func(i ssa.Instruction) bool {
 		iff, ok := i.(*ssa.If)
-		return ok && derives(iff.Cond, func(v ssa.Value) bool {
+		return ok && c18Derives(iff.Cond, func(v ssa.Value) bool {
 			_, is := fieldOf(v, "config.Proxy", "DeregisterGracePeriod")
 			return is
 		})
